@@ -853,3 +853,48 @@ V("element-liv-stores-before-no-candidate-exit", "break", ["C15"], P + "element_
   "    if i[MAX] < i[MIN]:\n        return PROP_INCONSISTENCY\n    v[MIN] = max(v[MIN], v_min)\n    v[MAX] = min(v[MAX], v_max)\n",
   "    v[MIN] = max(v[MIN], v_min)\n    v[MAX] = min(v[MAX], v_max)\n    if i[MAX] < i[MIN] or v[MAX] < v[MIN]:\n        return PROP_INCONSISTENCY\n",
   "the running extrema stored before the 'no candidate' exit: the 64-bit sentinel reaches a 32-bit cell", "compute_domains_element_liv")
+V("mincost-sentinel-outside-domain", "break", ["C04", "C09"], H + "min_cost_dom_heuristic.py",
+  "    best_value = shr_domain[MIN]  # branched on when no value of the domain has a positive cost\n", "    best_value = -1\n",
+  "the scan starts from -1: with no positive cost in the domain -1 is branched on and the search never ends (the pinned tree's defect)", "min_cost_dom_heuristic")
+V("given-offsets-dropped", "break", ["C13"], PB,
+  "        if dom_offsets_lst is None:\n            dom_offsets_lst = [0] * n\n",
+  "        if dom_indices_lst is None or dom_offsets_lst is None:\n            dom_offsets_lst = [0] * n\n",
+  "offsets given without indices are replaced by zeros: the model written with offsets differs from its translated twin", "Problem.__init__")
+V("given-offsets-ifexp", "neutral", ["C13", "C01", "C02", "C03"], PB,
+  "        if dom_offsets_lst is None:\n            dom_offsets_lst = [0] * n\n",
+  "        dom_offsets_lst = [0] * n if dom_offsets_lst is None else dom_offsets_lst\n",
+  "the default as a conditional expression")
+V("optimize-bound-left-in-model", "break", ["C13", "C15", "C03"], BS,
+  "            logger.info(f\"Found a local optimum: {solution[variable_idx]}\")\n            best_solution = solution\n",
+  "            logger.info(f\"Found a local optimum: {solution[variable_idx]}\")\n            best_solution = solution\n"
+  "            objective = self.problem.shr_domains_lst[self.problem.dom_indices_lst[variable_idx]]\n"
+  "            objective[1] = int(solution[variable_idx]) - self.problem.dom_offsets_lst[variable_idx]\n",
+  "the incumbent is recorded in the model's own domain list: after minimize the problem object is a different model", "BacktrackSolver.optimize")
+V("optimize-reads-model-through-local", "neutral", ["C13", "C15", "C03"], BS,
+  "            logger.info(f\"Found a local optimum: {solution[variable_idx]}\")\n            best_solution = solution\n",
+  "            logger.info(f\"Found a local optimum: {solution[variable_idx]}\")\n            best_solution = solution\n"
+  "            objective = self.problem.shr_domains_lst[self.problem.dom_indices_lst[variable_idx]]\n"
+  "            logger.debug(f\"objective domain {objective[0]}..{objective[1]}\")\n",
+  "the model read through a local: no store")
+V("decision-default-referenced-only", "break", ["C02"], BS,
+  "        decision_domains = list(range(problem.shr_domain_nb)) if decision_domains is None else decision_domains\n",
+  "        decision_domains = sorted(set(problem.dom_indices_lst)) if decision_domains is None else decision_domains\n",
+  "by default only the shared domains some variable refers to are branched on: the one a view leaves behind is never instantiated, is_solved never holds", "BacktrackSolver.__init__")
+V("decision-default-if-form", "neutral", ["C02"], BS,
+  "        decision_domains = list(range(problem.shr_domain_nb)) if decision_domains is None else decision_domains\n",
+  "        if decision_domains is None:\n            decision_domains = [d for d in range(len(problem.shr_domains_lst))]\n",
+  "the same default written as an if statement and a comprehension")
+V("latin-given-truthiness", "break", ["C13"], "nucs/problems/latin_square_problem.py",
+  "(colors[0], colors[-1]) if given not in self.colors else (given, given)",
+  "(given, given) if given else (colors[0], colors[-1])",
+  "a given of colour 0 is taken for an empty cell", "LatinSquareProblem.__init__")
+V("latin-given-membership-flipped", "neutral", ["C13"], "nucs/problems/latin_square_problem.py",
+  "(colors[0], colors[-1]) if given not in self.colors else (given, given)",
+  "(given, given) if given in self.colors else (colors[0], colors[-1])",
+  "the membership test with its branches exchanged")
+V("mincost-scan-short", "neutral", ["C02", "C04", "C09"], H + "min_cost_dom_heuristic.py",
+  "    for value in range(shr_domain[MIN], shr_domain[MAX] + 1):\n", "    for value in range(shr_domain[MIN], shr_domain[MAX]):\n",
+  "the largest value is never a candidate: another (legal) value of the domain is branched on; the partition is intact (was a break before fix 31b7d71)")
+V("mincost-scan-long", "break", ["C02", "C09"], H + "min_cost_dom_heuristic.py",
+  "    for value in range(shr_domain[MIN], shr_domain[MAX] + 1):\n", "    for value in range(shr_domain[MIN], shr_domain[MAX] + 2):\n",
+  "the scan reaches one value past the domain: a cheaper value outside it is branched on", "min_cost_dom_heuristic")
